@@ -23,6 +23,15 @@ def run_conn(res, whiches, prop_filter=None, timeout=900, with_responder=False, 
     for w in whiches:
         rc, rs, err, bad = vlib.run_family(exe, "conn", args=[w], seed=res.seed, tier=res.tier, timeout=timeout)
         if rc != 0 or bad or not rs:
+            lp = vlib.library_panic(err) if rc != 0 else None
+            if lp:
+                # the process hosting client and server died of a panic raised inside the library: a concrete failing
+                # schedule (the scenario that was running is the one after the last record emitted)
+                res.violations.append({"what": "the process running the %s scenarios died inside the library: %s" % (w, lp), "family": "conn/" + w, "kind": "trace",
+                                       "case": {"family": w, "seed": res.seed, "tier": res.tier, "scenarios_completed": len(rs), "stderr_tail": err[-1500:]},
+                                       "signature": "conn:%s:panic:%s" % (w, lp[:80])})
+                runs += rs
+                continue
             res.mismatches.append({"family": "conn/" + w, "error": "harness exit %d" % rc, "stderr": err[-2500:], "bad": bad[:3]})
             continue
         runs += rs
